@@ -9,9 +9,15 @@ package main
 // a `Golden expected observed` case.
 
 import (
+	"bytes"
 	"fmt"
+	"hash/crc32"
+	"io"
 	"path/filepath"
 	"sync"
+
+	"github.com/tailscale/setec/audit"
+	"github.com/tailscale/setec/db"
 )
 
 func c03TwoDatabases(work string) []Record {
@@ -111,4 +117,45 @@ func trimDumps(a, b []secDump) ([]secDump, []secDump) {
 		}
 	}
 	return ra, rb
+}
+
+// c03BigValues: values around a megabyte (a size limit applied on one side only - accepted by Put, refused
+// when the file is loaded - would make the database unopenable after the next restart).  The values are
+// identified by a checksum; the kernel compares what was acknowledged with what the reopened file serves.
+func c03BigValues(work string) []Record {
+	env, err := newDBEnv(filepath.Join(work, "c03big"))
+	in := map[string]any{"kind": "big-values", "sizes": []int{1<<20 - 1, 1 << 20, 1<<20 + 1, 3 << 20}}
+	if err != nil {
+		return []Record{{Kind: "bigvalues", Key: "bigvalues", Input: in, Direct: &DirectVerdict{OK: false, What: "cannot create a database: " + err.Error()}}}
+	}
+	defer env.close()
+	env.sink.mu.Lock()
+	env.sink.quiet = true
+	env.sink.mu.Unlock()
+	sum := func(b []byte) uint64 { return uint64(crc32.ChecksumIEEE(b)) + 1000000 }
+	var exp []secDump
+	for i, n := range []int{1<<20 - 1, 1 << 20, 1<<20 + 1, 3 << 20} {
+		val := bytes.Repeat([]byte{byte('a' + i), 0xff, 0x00, '\n'}, n/4+1)[:n]
+		name := fmt.Sprintf("big/%d", i)
+		v, perr := env.d.Put(env.super, name, val)
+		if perr != nil {
+			continue // a refused value is not acknowledged: it need not be there afterwards
+		}
+		exp = append(exp, secDump{Name: []byte(name), Vers: []verVal{{Ver: uint64(v), Val: sum(val)}}, Active: uint64(v)})
+	}
+	obs := []secDump{{Name: []byte("<<the file no longer opens>>")}}
+	if d2, oerr := db.Open(env.path, env.kek.inner, audit.New(io.Discard)); oerr == nil {
+		obs = nil
+		for _, e := range exp {
+			sd := secDump{Name: e.Name}
+			if sv, gerr := d2.Get(env.super, string(e.Name)); gerr == nil {
+				sd.Vers, sd.Active = []verVal{{Ver: uint64(sv.Version), Val: sum(sv.Value)}}, uint64(sv.Version)
+			}
+			obs = append(obs, sd)
+		}
+	} else {
+		obs[0].Name = []byte("<<the file no longer opens: " + oerr.Error() + ">>")
+	}
+	return []Record{{Kind: "bigvalues", Key: "bigvalues", Nontrivial: len(exp) >= 3, Tags: []string{"values-around-a-megabyte"}, Input: in,
+		Obs: map[string]any{"acknowledged": len(exp)}, Coq: "Golden " + coqDisk(exp) + " " + coqDisk(obs)}}
 }
